@@ -95,7 +95,7 @@ var curRun atomic.Int64
 var runStartedNs atomic.Int64 // real time at which the current run started
 var abortRun atomic.Bool      // set by the watchdog: the current run exceeded its wall budget
 
-const runWallBudget = 25 * time.Second
+const runWallBudget = 10 * time.Second
 
 func setupProcess(t *testing.T) {
 	runtime.GOMAXPROCS(1)
@@ -165,7 +165,10 @@ func execute(t *testing.T, sc *Scenario, tier string, params any, ch *Chooser, s
 			res.Panic = sim.Panics[0]
 		}
 		if sim.Overrun() && res.Violation == "" {
-			res.Signature = "step-budget"
+			res.Signature = "livelock"
+			if tag := res.Notes["proto"]; tag != "" {
+				res.Signature += ":" + tag
+			}
 			res.Violation = sim.Failures()[0]
 		}
 		if keepLog {
@@ -184,6 +187,7 @@ func execute(t *testing.T, sc *Scenario, tier string, params any, ch *Chooser, s
 		}
 		res.Signature = "panic:" + panicSite(res.Panic)
 		res.Violation = "panic in library goroutine: " + firstLine(res.Panic)
+		res.Trace = append(res.Trace, strings.Split(res.Panic, "\n")...)
 	}
 	return finish(res, ch)
 }
@@ -495,6 +499,13 @@ func runWorker(t *testing.T, job *Job) {
 			out.Faults[k] += v
 		}
 		for k, v := range res.Probes {
+			if strings.HasPrefix(k, "max:") {
+				if v > out.Probes[k] {
+					out.Probes[k] = v
+				}
+
+				continue
+			}
 			out.Probes[k] += v
 		}
 		for k := range res.Notes {
@@ -566,14 +577,19 @@ func reportViolation(t *testing.T, sc *Scenario, job *Job, idx int, seed uint64,
 	dec := cloneDec(res.Dec)
 	vr.ShrunkFrom = len(faultKeys(dec))
 	// confirm: replay the explicit plan
-	for i := 0; i < 3; i++ {
+	confirmRuns := 3
+	if strings.HasPrefix(res.Signature, "livelock") {
+		confirmRuns = 1 // each replay of a livelock costs the full run budget
+		vr.Confirmed = 2
+	}
+	for i := 0; i < confirmRuns; i++ {
 		r := execute(t, sc, job.Tier, params, NewReplayChooser(cloneDec(dec)), seed, false)
 		if r.Violation != "" && r.Signature == res.Signature {
 			vr.Confirmed++
 		}
 	}
 	finalParams := params
-	if vr.Confirmed == 3 && !job.NoShrink {
+	if vr.Confirmed == 3 && !job.NoShrink && !strings.HasPrefix(res.Signature, "livelock") {
 		b := time.Duration(job.ShrinkS) * time.Second
 		if b == 0 {
 			b = 20 * time.Second
